@@ -398,10 +398,42 @@ def uniq(ctx):
         s['count'] = s.get('count', 0) + 1
         return True
 
-    atoms = [('%s not in _M.identifying_attributes' % nm, lambda e, s, tr: not s['identifying']),
-             ('%s in _M.identifying_attributes' % nm, lambda e, s, tr: s['identifying']),
-             ('%s in _M.referential_attributes' % nm, lambda e, s, tr: s['referential']),
-             ('%s not in _M.referential_attributes' % nm, lambda e, s, tr: not s['referential']),
+    once = {}
+    for a_ in ast.walk(fn):
+        if isinstance(a_, ast.Assign) and len(a_.targets) == 1 and isinstance(a_.targets[0], ast.Name):
+            once.setdefault(a_.targets[0].id, []).append(a_.value)
+
+    def container(c):
+        '''which name set of the metaclass a membership test consults (through a local that was derived from it)'''
+        while isinstance(c, ast.Name) and len(once.get(c.id, [])) == 1:
+            c = once[c.id][0]
+        t = src(c)
+        for what in ('identifying', 'referential'):
+            if '.%s_attributes' % what in t:
+                return what, c
+        return None, c
+
+    def member(e, s, tr):
+        if not any(isinstance(x, ast.Name) and x.id == nm for x in ast.walk(e['_X'])):
+            return None
+        what, _c = container(e['_C'])
+        return s[what] if what else None
+    # the attribute names of a class (CREATE TABLE / define_class) and those of its identifiers (CREATE UNIQUE INDEX /
+    # define_unique_identifier) are spelled by two different callers; names are case insensitive, so the membership test that decides
+    # whether an attribute is identifying compares them under one case normaliser
+    for t_ in [n for n in ast.walk(attr_loop) if isinstance(n, ast.Compare) and len(n.ops) == 1 and isinstance(n.ops[0], (ast.In, ast.NotIn))]:
+        what, c_ = container(t_.comparators[0])
+        if what != 'identifying' or not any(isinstance(x, ast.Name) and x.id == nm for x in ast.walk(t_.left)):
+            continue
+        left_norm = t_.left.func.attr if is_case_normalised(t_.left) else None
+        right_norms = set(x.func.attr for x in ast.walk(c_) if is_case_normalised(x))
+        r.check(left_norm is not None and right_norms == {left_norm}, 'identifying attributes are recognised independent of letter case', t_,
+                construct=QQ, key='identifying-name-case',
+                msg='the null scan decides whether `%s` is identifying with `%s`: the attribute is spelled as the class declares it, the identifier as '
+                    'CREATE UNIQUE INDEX / define_unique_identifier spelled it, and names are case insensitive - with another spelling the attribute is '
+                    'skipped and its null values are not counted' % (nm, src(t_)))
+    atoms = [('_X not in _C', lambda e, s, tr: (None if member(e, s, tr) is None else not member(e, s, tr))),
+             ('_X in _C', member),
              ('_X is None', lambda e, s, tr: (v_of(e, s) == 'none') if v_of(e, s) else None),
              ('_X is not None', lambda e, s, tr: (v_of(e, s) != 'none') if v_of(e, s) else None),
              ('_X != 0', lambda e, s, tr: (v_of(e, s) != 'zero') if v_of(e, s) else None),
